@@ -1,158 +1,166 @@
-"""Translator plug-in for C15: the statement order of MCNP_Problem.write_to_file and the guards of
-MCNP_InputFile.open, read from the AST of the working tree.
+"""Translator plug-in for C15: the tables of the writer, read from the working tree **by running it on a probe**.
 
 Gen/WriteOrder.lean
-  sequence   : what write_to_file puts into the file, in order: one segment per entry of `objects_list`
-               (+ `blank` where its `terminate` flag is True), then the statements that follow the loop
-               (`modifiers` for the loop over Cells._run_children_format_for_mcnp, `blank` for fh.write("\\n")).
-  openGuards : exception classes raised under `if "w" in mode` of MCNP_InputFile.open, in source order.
-  openEncoding : default text encoding of the handle (a character outside it makes fh.write raise).
-  commits    : the calls of the os module made by MCNP_InputFile.__exit__ / helper methods (e.g. replace, remove).
+  sequence    : what MCNP_Problem.write_to_file puts into the file, in order.  The probe is a small problem with a
+                message block and cell-block importances; `format_for_mcnp_input` of every object is replaced by a
+                function that returns one marker line naming its segment (message, title, cells, surfaces, dataInputs,
+                modifiers = the Cells attributes of Cell._INPUTS_TO_PROPERTY that are not in data_inputs); the real
+                write_to_file runs; the file is read back as markers and blank lines (`blank`).  Consecutive equal
+                markers are one segment.
+  recognised  : the probe was written and consisted of known markers and blank lines only, every segment present.
+  openGuards  : exception classes MCNP_InputFile.open("w") raises for (existing file, overwrite=False) and for a
+                directory, observed on a scratch directory.
+  openEncoding: "ascii" if the handle refuses a non-ASCII character, else the name reported by the handle.
+  exitOsCalls : the calls os.replace / os.rename / os.remove / os.unlink made while a write succeeds and while a
+                write fails, observed by wrapping the functions of the os module (sorted, duplicates removed).
 
-If the source no longer has the recognised shape the table is emitted as far as it could be read and
-`recognised := false`; the theorems that consume the table then no longer build (a re-opened proof).
+Because the tables are *observed*, a rewrite of the functions that keeps their behaviour regenerates the same
+file (no proof is re-opened); a change of the order, of a guard or of the commit mechanism changes it.
 """
-import ast
-import inspect
-import textwrap
+import os
+import shutil
+import tempfile
+import warnings
 
-SEGS = {"message": "message", "title": "title", "cells": "cells", "surfaces": "surfaces", "data_inputs": "dataInputs"}
-
-
-def _attr_of(node):
-    """self.cells -> 'cells';  [self.title] -> 'title'"""
-    if isinstance(node, ast.List) and len(node.elts) == 1:
-        node = node.elts[0]
-    if isinstance(node, ast.Attribute) and isinstance(node.value, ast.Name) and node.value.id == "self":
-        return node.attr
-    return None
+PROBE = (
+    "MESSAGE: probe\n\nprobe title\n1 0 -1 imp:n=1\n2 0 1 imp:n=0\n\n1 so 1\n\nmode n\nnps 10\n\n"
+)
+KNOWN = ["message", "title", "cells", "surfaces", "dataInputs", "modifiers"]
 
 
-def _is_blank_write(stmt):
-    return (
-        isinstance(stmt, ast.Expr)
-        and isinstance(stmt.value, ast.Call)
-        and isinstance(stmt.value.func, ast.Attribute)
-        and stmt.value.func.attr == "write"
-        and len(stmt.value.args) == 1
-        and isinstance(stmt.value.args[0], ast.Constant)
-        and stmt.value.args[0].value == "\n"
-    )
+def _marker(name):
+    def fmt(*a, **k):
+        return [name]
+
+    return fmt
 
 
-def _mentions(node, name):
-    return any(isinstance(n, ast.Attribute) and n.attr == name for n in ast.walk(node))
-
-
-def _has_write(node):
-    return any(
-        isinstance(n, ast.Call) and isinstance(n.func, ast.Attribute) and n.func.attr == "write" for n in ast.walk(node)
-    )
-
-
-def write_sequence(fn):
-    """(sequence, recognised).  Statements of the `with` body without an effect on the file (function
-    definitions, the warning bookkeeping) are skipped; a statement that writes and is not understood
-    clears `recognised`."""
+def probe_sequence(montepy, d):
+    src = os.path.join(d, "probe.imcnp")
+    with open(src, "w") as fh:
+        fh.write(PROBE)
+    p = montepy.read_input(src)
+    groups = {
+        "message": [p.message] if p.message else [],
+        "title": [p.title],
+        "cells": list(p.cells),
+        "surfaces": list(p.surfaces),
+        "dataInputs": list(p.data_inputs),
+        "modifiers": [
+            getattr(p.cells, attr)
+            for attr, _ in montepy.Cell._INPUTS_TO_PROPERTY.values()
+            if getattr(p.cells, attr) not in p.data_inputs
+        ],
+    }
+    for name, objs in groups.items():
+        for o in objs:
+            o.format_for_mcnp_input = _marker(name)
+    out = os.path.join(d, "probe.out")
+    p.write_to_file(out)
+    with open(out) as fh:
+        lines = fh.read().split("\n")
+    if lines and lines[-1] == "":
+        lines.pop()
     seq, ok = [], True
-    withs = [n for n in ast.walk(fn) if isinstance(n, ast.With)]
-    if not withs:
-        return seq, False
-    body = withs[0].body
-    loop_seen = False
-    modifiers_pending = False  # formatted into a variable, not written yet
-    for stmt in body:
-        if isinstance(stmt, ast.FunctionDef):
-            continue
-        if not loop_seen:
-            if isinstance(stmt, ast.For) and _mentions(stmt, "format_for_mcnp_input"):
-                loop_seen = True
-                # `if terminate: fh.write("\n")` must be inside the loop over objects_list
-                if not any(_is_blank_write(s) for n in ast.walk(stmt) if isinstance(n, ast.If) for s in n.body):
-                    ok = False
-                continue
-            tuples = [
-                n
-                for n in ast.walk(stmt)
-                if isinstance(n, ast.Tuple)
-                and len(n.elts) == 2
-                and isinstance(n.elts[1], ast.Constant)
-                and isinstance(n.elts[1].value, bool)
-            ]
-            for t in sorted(tuples, key=lambda n: (n.lineno, n.col_offset)):
-                a = _attr_of(t.elts[0])
-                if a not in SEGS:
-                    ok = False
-                    continue
-                seq.append(SEGS[a])
-                if t.elts[1].value:
-                    seq.append("blank")
-            if _has_write(stmt):
-                ok = False
-            continue
-        if _mentions(stmt, "_run_children_format_for_mcnp"):
-            if isinstance(stmt, ast.For) and _has_write(stmt):
-                seq.append("modifiers")
-            elif isinstance(stmt, ast.Assign):
-                modifiers_pending = True
-            else:
-                ok = False
-        elif _is_blank_write(stmt):
-            seq.append("blank")
-        elif isinstance(stmt, ast.For) and _has_write(stmt) and modifiers_pending:
-            seq.append("modifiers")
-            modifiers_pending = False
-        elif _has_write(stmt):
+    for l in lines:
+        s = "blank" if l.strip() == "" else l
+        if s != "blank" and s not in KNOWN:
             ok = False
-    if not loop_seen or modifiers_pending:
+            continue
+        if s == "blank" or not seq or seq[-1] != s:
+            seq.append(s)
+    if any(k not in seq for k in KNOWN):
         ok = False
     return seq, ok
 
 
-def open_guards(fn):
+def probe_guards(input_file, d):
     out = []
-    for n in ast.walk(fn):
-        if isinstance(n, ast.If) and isinstance(n.test, ast.Compare) and isinstance(n.test.left, ast.Constant) and n.test.left.value == "w":
-            for r in ast.walk(n):
-                if isinstance(r, ast.Raise) and r.exc is not None:
-                    f = r.exc.func if isinstance(r.exc, ast.Call) else r.exc
-                    out.append((r.lineno, getattr(f, "id", getattr(f, "attr", "?"))))
-    return [name for _, name in sorted(out)]
+    existing = os.path.join(d, "existing")
+    with open(existing, "w") as fh:
+        fh.write("x\n")
+    directory = os.path.join(d, "directory")
+    os.makedirs(directory)
+    for path in (existing, directory):
+        try:
+            with input_file.MCNP_InputFile(path, overwrite=False).open("w"):
+                pass
+        except Exception as e:  # noqa: BLE001
+            out.append(type(e).__name__)
+    return out
 
 
-def os_calls(cls_node, names):
-    out = []
-    for fn in cls_node.body:
-        if isinstance(fn, ast.FunctionDef) and fn.name in names:
-            for n in ast.walk(fn):
-                if isinstance(n, ast.Call) and isinstance(n.func, ast.Attribute) and isinstance(n.func.value, ast.Name) and n.func.value.id == "os":
-                    out.append((n.lineno, n.func.attr))
-    return [name for _, name in sorted(out)]
+def probe_encoding(input_file, d):
+    f = input_file.MCNP_InputFile(os.path.join(d, "enc"), overwrite=True)
+    try:
+        with f.open("w") as fh:
+            fh.write("café\n")
+    except UnicodeEncodeError:
+        return "ascii"
+    except Exception:  # noqa: BLE001
+        return "unknown"
+    return "not-ascii"
+
+
+def probe_os_calls(input_file, d):
+    calls = []
+    saved = {}
+
+    def wrap(name):
+        real = getattr(os, name)
+
+        def f(*a, **k):
+            calls.append(name)
+            return real(*a, **k)
+
+        saved[name] = real
+        setattr(os, name, f)
+
+    for n in ("replace", "rename", "remove", "unlink"):
+        wrap(n)
+    try:
+        with input_file.MCNP_InputFile(os.path.join(d, "ok"), overwrite=True).open("w") as fh:
+            fh.write("x\n")
+        try:
+            with input_file.MCNP_InputFile(os.path.join(d, "bad"), overwrite=True).open("w") as fh:
+                fh.write("x\n")
+                raise RuntimeError("probe")
+        except RuntimeError:
+            pass
+    finally:
+        for n, real in saved.items():
+            setattr(os, n, real)
+    return sorted(set(calls))
 
 
 def generate(write):
     import montepy
     from montepy.input_parser import input_file
 
-    fn = ast.parse(textwrap.dedent(inspect.getsource(montepy.MCNP_Problem.write_to_file))).body[0]
-    seq, ok = write_sequence(fn)
-    mod = ast.parse(inspect.getsource(input_file))
-    cls = [n for n in mod.body if isinstance(n, ast.ClassDef) and n.name == "MCNP_InputFile"][0]
-    opener = [n for n in cls.body if isinstance(n, ast.FunctionDef) and n.name == "open"][0]
-    guards = open_guards(opener)
-    commits = os_calls(cls, {"__exit__", "_discard_temporary"})
+    d = tempfile.mkdtemp(prefix="c15probe_")
+    try:
+        with warnings.catch_warnings():
+            warnings.simplefilter("ignore")
+            try:
+                seq, ok = probe_sequence(montepy, d)
+            except Exception:  # noqa: BLE001  the writer fails on a valid probe: nothing is recognised
+                seq, ok = [], False
+            guards = probe_guards(input_file, d)
+            enc = probe_encoding(input_file, d)
+            calls = probe_os_calls(input_file, d)
+    finally:
+        shutil.rmtree(d, ignore_errors=True)
     body = "namespace MontePyVerif.Gen.WriteOrder\n\n"
     body += "/-- what a statement of `write_to_file` puts into the file -/\n"
     body += "inductive Seg | message | title | cells | surfaces | dataInputs | modifiers | blank\n  deriving DecidableEq, Repr\n\n"
-    body += "/-- mcnp_problem.py:MCNP_Problem.write_to_file — `objects_list` (a `blank` where terminate=True), then the\n    statements after the loop, in source order -/\n"
+    body += "/-- mcnp_problem.py:MCNP_Problem.write_to_file — the order of the segments and blank lines in the file it\n    writes for the translator's probe problem (observed by running it) -/\n"
     body += "def sequence : List Seg := [" + ", ".join("." + s for s in seq) + "]\n\n"
-    body += f"/-- the body of the `with` block had the shape the translator knows -/\ndef recognised : Bool := {'true' if ok else 'false'}\n\n"
-    body += "/-- input_file.py:MCNP_InputFile.open — classes raised under `if \"w\" in mode`, in source order -/\n"
+    body += f"/-- the probe was written and consisted of the known segments and blank lines only -/\ndef recognised : Bool := {'true' if ok else 'false'}\n\n"
+    body += "/-- input_file.py:MCNP_InputFile.open(\"w\") — classes raised for (existing file, overwrite=False) and for a directory -/\n"
     body += "def openGuards : List String := [" + ", ".join('"' + g + '"' for g in guards) + "]\n\n"
-    body += "/-- input_file.py:MCNP_InputFile.__exit__ and _discard_temporary — calls into the os module, in source order -/\n"
-    body += "def exitOsCalls : List String := [" + ", ".join('"' + g + '"' for g in commits) + "]\n\n"
-    enc = inspect.signature(input_file.MCNP_InputFile.open).parameters["encoding"].default
-    body += "/-- input_file.py:MCNP_InputFile.open — default of the `encoding` parameter (write_to_file does not pass one) -/\n"
+    body += "/-- input_file.py:MCNP_InputFile.__exit__ — os.replace/rename/remove/unlink calls seen on a successful and on a failing write -/\n"
+    body += "def exitOsCalls : List String := [" + ", ".join('"' + g + '"' for g in calls) + "]\n\n"
+    body += "/-- input_file.py:MCNP_InputFile.open — \"ascii\" iff the handle write_to_file gets refuses a non-ASCII character -/\n"
     body += f"def openEncoding : String := \"{enc}\"\n\n"
     body += "end MontePyVerif.Gen.WriteOrder\n"
     write("WriteOrder.lean", body)
